@@ -124,6 +124,9 @@ class HTTPProtocol(BaseGopherProtocol):
         return self.getrenderstr(entry, url)
 
     def getrenderstr(self, entry, url):
+        # Local links are percent-encoded already, but URL: selectors and the
+        # host of remote entries come verbatim from gophermaps and link files.
+        url = html.escape(url)
         retstr = "<TR><TD>"
         retstr += self.getimgtag(entry)
         retstr += "</TD>\n<TD>&nbsp;"
